@@ -318,6 +318,13 @@ macro_rules! oversize_refused {
             forget(r);
             let out = w.finish();
             assert!(out.len() == 3 && out[0] == pre[0] && out[1] == pre[1] && out[2] == pre[2]);
+            // to_bytes on an oversized value is refused as well (same encoding rule, empty writer)
+            let tb = big.to_bytes();
+            assert!(tb.is_err());
+            forget(tb);
+            let tb = TypeLengthValue::new(7u8, big).to_bytes();
+            assert!(tb.is_err());
+            forget(tb);
             kani::cover!(true, "oversize value refused");
             forget(out);
         }
